@@ -465,6 +465,18 @@ pub struct Leaf<const S: usize, A: 'static> {
     pub _a: [A; 0],
 }
 
+// Debug output that depends on the value only (C20: `{:?}` of a Cc is `{:?}` of its value in every collector phase).
+impl std::fmt::Debug for Node {
+    fn fmt(&self, f: &mut std::fmt::Formatter<'_>) -> std::fmt::Result {
+        write!(f, "Node({})", self.head.id)
+    }
+}
+impl<const S: usize, A: 'static> std::fmt::Debug for Leaf<S, A> {
+    fn fmt(&self, f: &mut std::fmt::Formatter<'_>) -> std::fmt::Result {
+        write!(f, "Leaf<{}>({:?})", S, &self.bytes[..S.min(4)])
+    }
+}
+
 impl<const S: usize, A: 'static> Leaf<S, A> {
     pub fn make(id: u32) -> Self {
         let mut bytes = [0u8; S];
